@@ -217,7 +217,8 @@ def unit_rules(strings):
 DOCS = [r"a % CMT1" "\n" r" b", "x % CMTEOF", "p % CMTPAR\n\n q", r"\textbf{a} $F1 + x$ \[ F2 \] \begin{equation} F3 \end{equation}",
         "\\begin{align*}\n F4 &= 1\\\\\n F5 &= 2\n\\end{align*}", r"\hspace{3cm}x \label{LBL} \emph{y} \textfrac{1}{2} \textbf\'e \hat\vec x",
         r"\begin{gather*} G1 \end{gather*} \( G2 \)", r"\begin{flalign} H1 \end{flalign} \begin{alignat}{2} H2 \end{alignat} $\begin{split} H3 \end{split}$",
-        "\\emph{u % CMTARG\n v} \\begin{itemize}\\item % CMTITEM\n w\\end{itemize} $x % CMTMATH\n y$"]
+        "\\emph{u % CMTARG\n v} \\begin{itemize}\\item % CMTITEM\n w\\end{itemize} $x % CMTMATH\n y$",
+        "z \\begin{pmatrix} a & b % CMTMX\n \\\\ c & d \\end{pmatrix} \\begin{array}{c} % CMTARR\n e \\end{array}"]
 FORMULAS = [(r"$F1 + x$", "F1"), (r"\[ F2 \]", "F2"), (r"\begin{equation} F3 \end{equation}", "F3"),
             ("\\begin{align*}\n F4 &= 1\\\\\n F5 &= 2\n\\end{align*}", "F4"), (r"\begin{gather*} G1 \end{gather*}", "G1"), (r"\( G2 \)", "G2"),
             (r"\begin{flalign} H1 \end{flalign}", "H1"), (r"\begin{alignat}{2} H2 \end{alignat}", "H2")]
